@@ -6,7 +6,8 @@ import checklib
 from runners.common import replay_with
 
 # compile stages: files of one stage only depend on earlier stages and are compiled concurrently
-STAGES = [["Gen_C11.v"], ["C11_base.v"], ["C11_lemmas.v", "C11_bridge_swave.v", "C11_bridge_eqm.v"],
+STAGES = [["Gen_C11.v", "Gen_C11py.v"], ["C11_base.v"],
+          ["C11_lemmas.v", "C11_bridge_swave.v", "C11_bridge_eqm.v", "C11_pycode.v"],
           ["C11_glue.v"]]
 PROP = "C11.v"
 # floating-point findings of the lambdified code (the theorems are about exact reals)
@@ -41,6 +42,9 @@ TRUSTED = [
     "principal branches given to sqrt/log/atan/Abs/Piecewise in coq/theories/DenC.v + CLib.v (Csqrt, Clog = ln|z| + i atan2(Im,Re), "
     "first-true-condition Piecewise) are taken to be SymPy's/NumPy's meaning of those heads on exact reals",
     "ComplexSqrt is modelled by its get_definition() tree; bridge/symgen_C11.py asserts on every run that the NumPy printer emits exactly that tree",
+    "pure-Python backend: bridge/symgen_C11py.py parses the code text printed by ComplexSqrt._pythoncode with Python's ast and reads it for real "
+    "float/int arguments (isinstance(x,(float,int)) = True, math.sqrt/cmath.sqrt = principal sqrt; math.sqrt's ValueError is not modelled); "
+    "bridge/search_C11.py runs the real lambdify(modules='math') functions on float, int and numpy.float64 arguments",
     "floating point is outside the theorems: bridge/search_C11.py compares the lambdified code with an mpmath oracle and with SymPy's "
     "own 60-digit evaluation under condition-number-scaled tolerances",
 ]
@@ -63,6 +67,8 @@ def run(chk):
     ]
     gen, prop, search = "Gen_C11.v", PROP, "search_C11.py"
     rc, out, _ = chk.bridge("symgen_C11.py", [os.path.join(chk.build, gen)])
+    if rc == 0:  # the `math`-backend code text printed by the current source, parsed back
+        rc, out, _ = chk.bridge("symgen_C11py.py", [os.path.join(chk.build, "Gen_C11py.v")])
     proofs_ok = False
     if rc != 0:
         chk.obligations.extend(chk.theorem_names(os.path.join(checklib.COQ_PROPS, prop)))
